@@ -858,9 +858,16 @@ impl Client {
     }
 
     fn send(&self, method: &str, params: Value) -> (u64, Receiver<Value>) {
+        self.send_logged(method, params, |_| {})
+    }
+
+    /// `before(id)` runs after the id is chosen and before the request is written (the "call" event goes there: what
+    /// the client does with the request must come later in the trace)
+    fn send_logged<F: FnOnce(u64)>(&self, method: &str, params: Value, before: F) -> (u64, Receiver<Value>) {
         let id = self.next_id.fetch_add(1, Ordering::SeqCst);
         let (tx, rx) = channel();
         self.waiting.lock().unwrap().insert(id, tx);
+        before(id);
         let msg = json!({"jsonrpc":"2.0","id":id,"method":method,"params":params});
         let mut s = serde_json::to_vec(&msg).unwrap();
         s.extend_from_slice(b"\n\n");
@@ -1218,12 +1225,13 @@ impl Exec {
             }
         };
         let npanics = c.panics.lock().unwrap().len();
-        let (id, rx) = c.send(method, params);
-        let mut ev = json!({"ev":"call","id":id,"m":method});
-        for (k, v) in extra.as_object().unwrap() {
-            ev[k] = v.clone();
-        }
-        sh.trace.emit(ev);
+        let (id, rx) = c.send_logged(method, params, |id| {
+            let mut ev = json!({"ev":"call","id":id,"m":method});
+            for (k, v) in extra.as_object().unwrap() {
+                ev[k] = v.clone();
+            }
+            sh.trace.emit(ev);
+        });
         self.finish_call(&c, id, &rx, method, &extra, timeout_ms, npanics)
     }
 
@@ -1346,8 +1354,9 @@ impl Exec {
                     }
                 };
                 let npanics = c.panics.lock().unwrap().len();
-                let (id, rx) = c.send("commitment_revocation", params);
-                sh.trace.emit(json!({"ev":"call","id":id,"m":"notify","l":l}));
+                let (id, rx) = c.send_logged("commitment_revocation", params, |id| {
+                    sh.trace.emit(json!({"ev":"call","id":id,"m":"notify","l":l}));
+                });
                 if jbool(step, "wait", true) {
                     self.finish_call(&c, id, &rx, "notify", &json!({"l": l}), ju64(step, "timeout_ms", 5000), npanics);
                 } else {
@@ -1477,6 +1486,7 @@ impl Exec {
             }
             "kill" => {
                 do_kill(&sh, "script");
+                thread::sleep(Duration::from_millis(60));
                 emit_obs(&sh, "kill!");
             }
             "kill_on" => {
@@ -1492,11 +1502,13 @@ impl Exec {
                     sh.trace.emit(json!({"ev":"note","what":"wait_dead timed out"}));
                     do_kill(&sh, "script (armed kill did not fire)");
                 }
+                thread::sleep(Duration::from_millis(60));
                 emit_obs(&sh, "kill!");
             }
             "restart" => {
                 if sh.client().is_some() {
                     do_kill(&sh, "script (restart)");
+                    thread::sleep(Duration::from_millis(60));
                     emit_obs(&sh, "kill!");
                 }
                 // answers of calls that were outstanding will never come
@@ -1586,9 +1598,19 @@ fn run_scenario(scn: &Value, out_dir: &Path, bin: &Path, port0: u16) -> Value {
         let period = ju64(scn, "sample_ms", 100);
         thread::spawn(move || {
             while !sh2.done.load(Ordering::SeqCst) {
+                let t = Instant::now();
                 thread::sleep(Duration::from_millis(period));
+                let lag = t.elapsed().as_millis() as u64;
+                if lag > period + 1500 {
+                    sh2.inconclusive.lock().unwrap().push(format!("the rig was not scheduled for {lag} ms (machine overloaded)"));
+                }
                 if sh2.client().is_some() {
+                    let t = Instant::now();
                     emit_obs(&sh2, "tick");
+                    let took = t.elapsed().as_millis() as u64;
+                    if took > 3000 && !sh2.wedged.load(Ordering::SeqCst) {
+                        sh2.inconclusive.lock().unwrap().push(format!("reading the client's state took {took} ms (machine overloaded)"));
+                    }
                 }
             }
         })
